@@ -13,6 +13,7 @@
 (*   h    the handler was entered      [r, seen, out]           SrvInvoke  *)
 (*   sw   the server wrote a message   [hdr, body, end]  SrvReply /        *)
 (*                                        SrvAppException / UnknownMethod  *)
+(*   pe   Process returned              []   SrvOnewayDone (or already idle) *)
 (*   ret  the client call returned     [k, none, hdr, body, end, res]      *)
 (*                                                    CliRecv (or oneway)  *)
 (*   end  the connection is at rest    [c2s, s2c: unread bytes]            *)
@@ -75,6 +76,10 @@ ESw == /\ Is("sw") /\ Adv
        /\ \/ Ev.hdr.mt = REPLY /\ SrvReply(Ev.body)
           \/ Ev.hdr.mt = EXCEPTION /\ (SrvAppException(Ev.body) \/ SrvUnknownMethod(Ev.body))
 
+EPe == /\ Is("pe") /\ Adv
+       /\ IF srv.st = "done" /\ Meth(srv.r).oneway THEN SrvOnewayDone
+          ELSE srv = Idle /\ UNCHANGED vars
+
 ResMatches(c, obs, exp) ==
   CASE exp.k = "val" -> obs.k = "val" /\ CAbs(Meth(c.r).ret, obs.v) = CAbs(Meth(c.r).ret, exp.v)
     [] exp.k = "void" -> obs.k = "void"
@@ -101,7 +106,7 @@ EEnd == /\ Is("end") /\ Adv
         /\ \A k \in 1..Len(reqs) : Handled(k) /\ Answered(k)
         /\ UNCHANGED vars
 
-TNext == ECw \/ ERaw \/ ESrh \/ ESra \/ EH \/ ESw \/ ERet \/ EEnd
+TNext == ECw \/ ERaw \/ ESrh \/ ESra \/ EH \/ ESw \/ EPe \/ ERet \/ EEnd
 TSpec == TInit /\ [][TNext]_tvars
 
 AtEnd == l = Len(T.ev) + 1
